@@ -111,6 +111,12 @@ def gen_script(rng, n):
             if rng.random() < 0.3:
                 op['q'] = str(rng.randint(0, 255))
             script.append(op)
+            if op['rep'] == 'plain' and op['values'] and rng.random() < 0.2:
+                # the same event object is written once more, after an object was added through the object set that the
+                # caller obtained before the first write
+                idx += 1
+                extra = rng.choice([v for v in NASTY if v != ''])
+                script.append(dict(op, idx=idx, values=op['values'] + ([extra] if extra not in op['values'] else []), reuse=True))
     return script
 
 
@@ -128,14 +134,21 @@ def write_script(script, pretty, validate=True):
     buf = io.BytesIO()
     w = EDXMLWriter(buf, validate=validate, pretty_print=pretty)
     verdicts = []
+    last = None
     for op in script:
         try:
             if op['k'] == 'ont':
                 w.add_ontology(base_ontology(op['types'], op['sources'], variant=0 if op['ok'] else 1, lvl=op.get('lvl', 0)))
             elif op['k'] == 'foreign':
                 w.add_foreign_element(foreign_element(op['idx']))
+            elif op.get('reuse') and last is not None and last[0] == op['idx'] - 1:
+                for v in op['values']:
+                    last[2].add(v)
+                w.add_event(last[1])
             else:
-                w.add_event(gen.build_event(event_spec(op), op['rep']))
+                e = gen.build_event(event_spec(op), op['rep'])
+                last = (op['idx'], e, e['p']) if op['rep'] == 'plain' and op['values'] else None
+                w.add_event(e)
             verdicts.append(None)
         except EDXMLOntologyValidationError:
             verdicts.append('EDXMLOntologyValidationError')
@@ -147,6 +160,33 @@ def write_script(script, pretty, validate=True):
             verdicts.append('foreign:' + type(ex).__name__)
     w.close()
     return buf.getvalue(), verdicts
+
+
+def interleave(data):
+    """The same document as another conforming writer may produce it: inside every event, the objects of one property are not
+    neighbours (round robin over the properties), likewise the attachments."""
+    from lxml import etree
+    root = etree.fromstring(data)
+    for ev in root.iter("{%s}event" % EDXML_NS):
+        for box in ev:
+            kids = list(box)
+            if len({k.tag for k in kids}) < 2 or len(kids) < 3:
+                continue
+            groups = {}
+            for k in kids:
+                groups.setdefault(k.tag, []).append(k)
+            order = []
+            while any(groups.values()):
+                for tag in sorted(groups, key=lambda t: -len(groups[t])):
+                    if groups[tag]:
+                        order.append(groups[tag].pop(0))
+            tails = [k.tail for k in kids]
+            for k in kids:
+                box.remove(k)
+            for k, t in zip(order, tails):
+                k.tail = t
+                box.append(k)
+    return etree.tostring(root)
 
 
 def parse_doc(data, validate=True):
@@ -411,6 +451,10 @@ class C02(Property):
         data, verdicts = write_script(case['script'], case['pretty'])
         err, events, ox, foreign = parse_doc(data)
         obs = {'verdicts': verdicts, 'parseErr': err, 'delivered': [e for e in events], 'foreign': foreign, 'ontology': ox}
+        try:
+            obs['interleaved_same'] = parse_doc(interleave(data)) == (err, events, ox, foreign) if err is None else True
+        except Exception as ex:
+            obs['interleaved_same'] = 'err:' + type(ex).__name__
         # the pass-through filter
         try:
             f1 = filter_doc(data)
@@ -454,7 +498,7 @@ class C02(Property):
         r = replies[0]
         by_idx = {op['idx']: op for op in case['script'] if op['k'] == 'event'}
         return {'verdicts': r['verdicts'], 'parseErr': r['parseErr'], 'delivered': [expected_view(by_idx[i]) for i in r['delivered']],
-                'foreign': [it[1] for it in r['out'] if it[0] == 'foreign'], 'ontology': 'undecided',
+                'foreign': [it[1] for it in r['out'] if it[0] == 'foreign'], 'ontology': 'undecided', 'interleaved_same': True,
                 'filter': {'lossless': True, 'idempotent': True},
                 # the filter machine: every ontology element of its output holds all definitions so far, events follow
                 # in order, foreign elements are not copied
@@ -519,6 +563,9 @@ class C02(Property):
             want_ox = etree.tostring(merged_ontology(acc_script).generate_xml()).decode()
             if obs['ontology'] != want_ox:
                 return 'the ontology read back differs from the union of the ontologies the writer accepted'
+        if obs.get('interleaved_same', True) is not True:
+            return ('the written document with the objects of each event in another order (objects of one property not next to each '
+                    'other) is not read as the same events: %s' % obs['interleaved_same'])
         if obs['filter'] != {'lossless': True, 'idempotent': True}:
             return 'pass-through filter: %s' % obs['filter']
         if want and obs.get('filterEdit') != 'rejected':
